@@ -198,7 +198,7 @@ class _Run:
         urwid.util.set_encoding("utf-8")
         urwid.CanvasCache.clear()
         self.build_widgets()
-        sc, inner, top = self.sc, self.inner, self.top
+        inner, top = self.inner, self.top
         size = tuple(cfg["size"])
         focus = True
         self.direct = True
@@ -217,7 +217,7 @@ class _Run:
                 if k == "key":
                     key = KEYS[op["k"] % len(KEYS)]
                     self.inner_handled = None
-                    p_before = sc.get_scrollpos()
+                    p_before = self.sc.get_scrollpos()
                     rv = top.keypress(size, key)
                     self.log.add("key", [key, repr(rv), self.inner_handled])
                     if rv is not None and rv != key:
@@ -241,7 +241,7 @@ class _Run:
                     rv = top.mouse_event(size, "mouse press", 1, op.get("x", 0) % size[0], op.get("y", 0) % size[1], focus)
                     self.log.add("click", [op.get("x", 0) % size[0], op.get("y", 0) % size[1], repr(rv)])
                 elif k == "setpos":
-                    sc.set_scrollpos(op["p"])
+                    self.sc.set_scrollpos(op["p"])
                     self.log.add("setpos", op["p"])
                     pending_actions += 1
                     handled_key_since_render = None
@@ -349,7 +349,16 @@ class _Run:
             self.inner = build_inner(spec)
             if self.direct:
                 self.hook_inner(self.inner)
-            self.sc.original_widget = self.inner
+            if op.get("swap_sc") and self.bar is not None:
+                # ... by putting a new Scrollable under the ScrollBar (bar.original_widget): the bar must describe
+                # the Scrollable it wraps now
+                import urwid as _u  # noqa: PLC0415
+
+                self.sc = _u.Scrollable(self.inner, force_forward_keypress=bool(self.scen["config"].get("ffk", False)))
+                self.bar.original_widget = self.sc
+                self.res.probe("scrollable_under_the_bar_replaced")
+            else:
+                self.sc.original_widget = self.inner
             self.log.add("content", ["swap", spec["k"]])
             self.res.probe("content_widget_replaced")
             if ("flow" in inner.sizing()) != ("flow" in self.inner.sizing()):
@@ -746,6 +755,7 @@ class ScrollEngine(Engine):
                 ops.append({"op": "content", "n": rng.choice([0, 1, 2, 8, 25]), "grow": rng.random() < 0.5, "i": rng.randrange(7)})
                 if rng.random() < 0.2:
                     ops[-1]["swap"] = rng.randrange(len(SWAPS))
+                    ops[-1]["swap_sc"] = rng.random() < 0.4
             elif q < 0.73:
                 ops.append({"op": "focus", "on": rng.random() < 0.7})
             else:
